@@ -234,6 +234,8 @@ UNOPS = {'Not', 'Neg', 'PtrMetadata'}
 
 def parse_rvalue(s):
     s = s.strip()
+    if s.startswith('no_retag '):
+        s = s[len('no_retag '):]
     if s.startswith('copy ') or s.startswith('move ') or s.startswith('const '):
         # may be a cast:  "<operand> as T (Kind)"
         m = re.match(r'^(.*) as (.*) \((\w+(?:\([^)]*\))?)\)$', s, re.S)
